@@ -266,6 +266,7 @@ func Run(r *fw.Run) {
 		}
 		fills = append(fills, "é", "É", "\u212a", "\ufffd", "\u0130", "\xe2\x82", "!!", "!Z", "!z")
 		fills = append(fills, enum.LongFills('a')...)
+		fills = append(fills, enum.BoundaryRunes()...)
 		fills = append(fills, enum.LongFills('Z')...)
 		r.Bounds["byte_sweep"] = fmt.Sprintf("%d slots x (256 byte values + %d other fills)", len(slots), len(fills)-256)
 		for _, sl := range slots {
